@@ -225,6 +225,93 @@ theorem C15_complete_prefiltered (c : Cfg) (as bs : List Row)
       intro b' hb'
       exact (mem_filter.mp (mem_groupRows.mp (mem_of_find?_eq_some hb')).1).2
 
+/-- What the PRECEDED BY sweep computes when the earliest b of the a-row's link value is earlier
+than its earliest a: the a-row is returned iff it passes its side and its *latest* earlier
+partner exists and passes the b side. -/
+theorem C15_preceded_matched_iff_latest (c : Cfg) (as bs : List Row) (order : List Key)
+    (hp : c.preceded = true)
+    (a : Row) (ha : a ∈ as) (k : Key) (hk : linkOf c.linkField a = some k) (hord : k ∈ order)
+    (hfirst : ∀ a0 b0, (groupRows c k as).head? = some a0 → (groupRows c k bs).head? = some b0 →
+      c.ts b0 < c.ts a0) :
+    Matched c as bs order a ↔
+      ∃ b, latestP c a (groupRows c k bs) = some b ∧ c.okA a = true ∧ c.okB b = true := by
+  -- closed form of this group's sweep
+  have hclosed : precededBy c (groupRows c k as) (groupRows c k bs)
+      = pbSpec c (groupRows c k as) (groupRows c k bs) := by
+    cases hA : groupRows c k as with
+    | nil => simp [precededBy_nil_left, pbSpec]
+    | cons a0 rest =>
+      rw [precededBy_eq_spec c a0 rest _ (hA ▸ groupRows_sorted c k as)]
+      cases hB : groupRows c k bs with
+      | nil => simp
+      | cons b0 restB =>
+        have := hfirst a0 b0 (by simp [hA]) (by simp [hB])
+        rw [dropWhile_cons_of_neg (by simpa using this)]
+  unfold Matched
+  rw [matchSequences_none]
+  simp only [aOf, hp, if_true]
+  constructor
+  · rintro ⟨p, hpm, rfl⟩
+    obtain ⟨g, hg, hpm⟩ := mem_flatMap.mp hpm
+    obtain ⟨k', _, rfl⟩ := mem_groupsOf.mp hg
+    have hk' := (mem_groupRows.mp (by simpa [aOf, hp] using (mem_matchInGroup c _ p hpm).1)).2
+    rw [hk] at hk'
+    cases hk'
+    simp only [matchInGroup, hp, if_true] at hpm
+    rw [hclosed] at hpm
+    obtain ⟨a', _, hstep⟩ := mem_filterMap.mp hpm
+    unfold pbStep at hstep
+    split at hstep
+    · rename_i b hb
+      split at hstep
+      · rename_i hok
+        simp at hstep; subst hstep
+        simp only [Cfg.pairOk, Bool.and_eq_true] at hok
+        exact ⟨b, hb, hok.1, hok.2⟩
+      · simp at hstep
+    · simp at hstep
+  · rintro ⟨b, hb, hoa, hob⟩
+    refine ⟨(b, a), ?_, rfl⟩
+    refine mem_flatMap.mpr ⟨(groupRows c k as, groupRows c k bs), mem_groupsOf.mpr ⟨k, hord, rfl⟩, ?_⟩
+    simp only [matchInGroup, hp, if_true]
+    rw [hclosed]
+    refine mem_filterMap.mpr ⟨a, mem_groupRows.mpr ⟨ha, hk⟩, ?_⟩
+    simp [pbStep, hb, Cfg.pairOk, hoa, hob]
+
+/-- PARTIAL completeness for PRECEDED BY, under exactly the two missing hypotheses: (1) the
+earliest b of the a-row's link value is strictly earlier than its earliest a (otherwise the
+sweep runs `b_ptr` to the end and returns nothing for the whole link value), and (2) the latest
+earlier partner of the a-row (if any) passes the b-side conditions. -/
+theorem C15_complete_preceded_partial (c : Cfg) (as bs : List Row) (order : List Key)
+    (hp : c.preceded = true)
+    (a : Row) (ha : a ∈ as) (k : Key) (hk : linkOf c.linkField a = some k) (hord : k ∈ order)
+    (hfirst : ∀ a0 b0, (groupRows c k as).head? = some a0 → (groupRows c k bs).head? = some b0 →
+      c.ts b0 < c.ts a0)
+    (hnear : ∀ b, latestP c a (groupRows c k bs) = some b → c.okB b = true) :
+    Matched c as bs order a ↔ ∃ b ∈ bs, Qualifies c a b := by
+  rw [C15_preceded_matched_iff_latest c as bs order hp a ha k hk hord hfirst]
+  constructor
+  · rintro ⟨b, hb, hoa, hob⟩
+    obtain ⟨hmem, hts⟩ := latestP_some hb
+    obtain ⟨hbs, hkb⟩ := mem_groupRows.mp hmem
+    refine ⟨b, hbs, ⟨by simp [hk], by rw [hk, hkb]⟩, ?_, hoa, hob⟩
+    simp only [TimeOk, hp, if_true]
+    exact hts
+  · rintro ⟨b, hbs, ⟨_, hl2⟩, ht, hoa, _⟩
+    simp only [TimeOk, hp, if_true] at ht
+    have hbg : b ∈ groupRows c k bs := mem_groupRows.mpr ⟨hbs, by rw [← hl2, hk]⟩
+    obtain ⟨b', hb'⟩ := latestP_isSome_of_mem (groupRows_sorted c k bs) hbg ht
+    exact ⟨b', hb', hoa, hnear b' hb'⟩
+
+example : ∀ a0 b0, (groupRows vCfg (.i64 7) [wRow 1 10 none]).head? = some a0 →
+    (groupRows vCfg (.i64 7) vB).head? = some b0 → vCfg.ts b0 < vCfg.ts a0 := by
+  intro a0 b0 h1 h2
+  have e1 : (groupRows vCfg (.i64 7) [wRow 1 10 none]).head? = some (wRow 1 10 none) := by decide
+  have e2 : (groupRows vCfg (.i64 7) vB).head? = some (wRow 0 5 none) := by decide
+  rw [e1] at h1; rw [e2] at h2
+  cases h1; cases h2
+  decide
+
 /-! ## LIMIT -/
 
 /-- LIMIT n returns at most n matched sequences, and exactly the first n of the unlimited
